@@ -34,13 +34,13 @@ ASSUMPTIONS = [
 TRUSTED_BASE = ["pvc (own VC generator: /verif/pvc)", "z3 5.1", "python ast module", "pvc.sympy2z3 for the per-program dependency checks"]
 
 
-def native_model(shape, seed, container="set", cse=True, transcendental=False, branchy=False):
+def native_model(shape, seed, container="set", cse=True, transcendental=False, branchy=False, passthrough=False):
     """Real compiled model vs exact sympy evaluation, by name."""
     from replay import shim
     from replay.native import repo_import
 
     n, c, k = shape[0], shape[1], shape[2]
-    sc = scenarios.Scenario(n, c, k, [1], seed=seed, transcendental=transcendental, branchy=branchy)
+    sc = scenarios.Scenario(n, c, k, [1], seed=seed, transcendental=transcendental, branchy=branchy, passthrough=passthrough)
     transcendental = transcendental or branchy
     problems = []
     try:
@@ -89,6 +89,15 @@ def native_branchy(run, pid="C01"):
             run.findings.append(Finding(f"{pid}.py.native_branch_sensitive_program", "branchy", problems[0], {"language": "python", "inputs": {"shape": [2, 1, 1], "seed": run.seed, "cse": cse, "branchy": True}, "model_definition": sc.describe(), "oracle_verdict": problems[:4]}, True))
             break
     run.bounded.append({"what": "real compiled model of a program with asin(sin u), atan(tan u), sqrt(u^2), acos(cos u) terms vs direct evaluation, CSE on and off, inputs beyond the principal range", "bound": "1 program x 2 CSE settings x 2 points", "failures": fails, "counted_as_proved": False})
+    pf = 0
+    for cse in (True, False):
+        run.native_runs += 1
+        problems, sc = native_model((5, 1, 2), run.seed, "set", cse, passthrough=True)
+        if problems:
+            pf += 1
+            run.findings.append(Finding(f"{pid}.py.native_passthrough_program", "passthrough", problems[0], {"language": "python", "inputs": {"shape": [5, 1, 2], "seed": run.seed, "cse": cse, "passthrough": True}, "model_definition": sc.describe(), "oracle_verdict": problems[:4]}, True))
+            break
+    run.bounded.append({"what": "real compiled model of a program in which several statements only forward an input (identity-updated states, a state set to a control / calibration value)", "bound": "1 program x 2 CSE settings x 5 calls", "failures": pf, "counted_as_proved": False})
 
 
 def dependency_checks(run, n_programs):
@@ -164,7 +173,7 @@ def replay_file(payload):
     inp = payload["inputs"]
     problems = []
     for cse in ([inp["cse"]] if "cse" in inp else [True, False]):
-        p, sc = native_model(tuple(inp["shape"][:3]), inp.get("seed", 0), inp.get("container", "set"), cse, branchy=inp.get("branchy", False))
+        p, sc = native_model(tuple(inp["shape"][:3]), inp.get("seed", 0), inp.get("container", "set"), cse, branchy=inp.get("branchy", False), passthrough=inp.get("passthrough", False))
         problems += p
     print("replay C01:", problems[:3] or "compiled model equals the symbolic update expressions")
     return not problems
